@@ -7,6 +7,6 @@ prop=${2:-${1%%-*}}
 cd /repo || exit 9
 if ! git diff --quiet; then echo "/repo has uncommitted changes; refusing"; exit 9; fi
 git apply $d/patch.diff || { echo "patch does not apply"; exit 8; }
-cd /verif && ./check $prop > /tmp/seedrun_$1.log 2>&1; rc=$?
+cd /verif && VERIF_EVIDENCE_DIR=/tmp/seed_evidence VERIF_REPLAY_DIR=/tmp/seed_replays ./check $prop > /tmp/seedrun_$1.log 2>&1; rc=$?
 git -C /repo checkout -- .
 echo "seed $1 prop $prop: check exit=$rc"; grep -E "^VIOLATION|^KNOWN|^UNDECIDED|obligations=" /tmp/seedrun_$1.log | head -8
